@@ -1,5 +1,6 @@
 """bin/check entry point."""
 import importlib
+import warnings
 import json
 import sys
 import traceback
@@ -8,6 +9,7 @@ from .core import MachineryError, Run
 
 
 def main(argv):
+    warnings.simplefilter("ignore")
     if len(argv) < 2:
         print(__doc__)
         return 2
